@@ -711,6 +711,10 @@ class ScipyOptimizeDriver(Driver):
         prob = self._problem()
         model = prob.model
 
+        if self._con_cache_x is not None and not np.array_equal(self._con_cache_x, x_new):
+            # scipy may ask for the gradient at a new point before the objective
+            self._objfunc(x_new)
+
         try:
             grad = self._compute_totals(of=self._obj_and_nlcons, wrt=self._dvlist,
                                         return_format=self._total_jac_format)
